@@ -26,6 +26,8 @@ class C03(Prop):
 
     # translator tie (DESIGN II.7): module -> pipeline heads built from that observer
     tie_modules = {
+        # subject.rs / behavior_subject.rs / start.rs pinned wholesale on top of their semantic ties
+        "RxModel.GenTie.PinsSubject": [],
         "RxModel.GenTie.Sources": [],
         "RxModel.GenTie.TimeSources": ["startwith"],           # start_with: the values in order, then the source is subscribed
         # the derived-operator layer of src/observable.rs: the chain each provided method builds, and its list semantics
